@@ -15,7 +15,10 @@
 #include "celeritas/Constants.hh"
 #include "celeritas/Quantities.hh"
 #include "celeritas/field/DormandPrinceStepper.hh"
+#include "celeritas/field/FieldDriver.hh"
 #include "celeritas/field/FieldDriverOptions.hh"
+#include "celeritas/field/MakeMagFieldPropagator.hh"
+#include "celeritas/field/detail/FieldUtils.hh"
 #include "celeritas/field/MakeMagFieldPropagator.hh"
 #include "celeritas/field/RungeKuttaStepper.hh"
 #include "celeritas/field/UniformField.hh"
@@ -108,6 +111,73 @@ Helix make_helix(double const pos[3], double const dir[3], double const bfield[3
     return h;
 }
 
+// The propagator's view of the navigator: forwards to the real OrangeTrackView
+// and records what the propagator asked and where it moved.
+struct GeoEvent
+{
+    char kind;  // 'd' set_dir, 'f' find_next_step, 'i' move_internal, 'b' move_to_boundary
+    double a[3];
+    double dist;
+    bool boundary;
+};
+class GeoProxy
+{
+  public:
+    GeoProxy(OrangeTrackView& g, std::vector<GeoEvent>& ev) : g_(g), ev_(ev) {}
+    Real3 const& pos() const { return g_.pos(); }
+    Real3 const& dir() const { return g_.dir(); }
+    bool is_on_boundary() const { return g_.is_on_boundary(); }
+    void set_dir(Real3 const& d)
+    {
+        ev_.push_back({'d', {d[0], d[1], d[2]}, 0, false});
+        g_.set_dir(d);
+    }
+    Propagation find_next_step(real_type mx)
+    {
+        Propagation p = g_.find_next_step(mx);
+        ev_.push_back({'f', {mx, 0, 0}, p.distance, p.boundary});
+        return p;
+    }
+    void move_internal(Real3 const& p)
+    {
+        ev_.push_back({'i', {p[0], p[1], p[2]}, 0, false});
+        g_.move_internal(p);
+    }
+    void move_to_boundary()
+    {
+        g_.move_to_boundary();
+        ev_.push_back({'b', {g_.pos()[0], g_.pos()[1], g_.pos()[2]}, 0, true});
+    }
+
+  private:
+    OrangeTrackView& g_;
+    std::vector<GeoEvent>& ev_;
+};
+
+// Diagnostic for replays (VSIM_TRACE): the bare driver from the same start
+template<template<class> class StepperT, class FieldT>
+void trace_driver(FieldT const& field, FieldDriverOptions const& fopt, units::ElementaryCharge q,
+                  OdeState state, double step, Helix const& hx)
+{
+    auto stepper = make_mag_field_stepper<StepperT>(field, q);
+    FieldDriver driver{fopt, stepper};
+    double s = 0;
+    std::cerr.precision(6);
+    for (int i = 0; i < 400 && s < step; ++i)
+    {
+        auto sub = driver.advance(step - s, state);
+        s += sub.step;
+        state = sub.state;
+        ld y[3];
+        hx.pos(s, y);
+        double d = std::sqrt((double)((y[0] - state.pos[0]) * (y[0] - state.pos[0])
+                                      + (y[1] - state.pos[1]) * (y[1] - state.pos[1])
+                                      + (y[2] - state.pos[2]) * (y[2] - state.pos[2])));
+        std::cerr << "    driver substep " << i << " h=" << sub.step << " phase=" << sub.step * (double)std::fabs(hx.k)
+                  << " s=" << s << " off-helix=" << d << " |p|=" << norm(state.mom) << "\n";
+    }
+}
+
 class WorldG8 : public World
 {
   public:
@@ -170,6 +240,7 @@ class WorldG8 : public World
             d["delta_intersection"] = minstep * rp.log_uniform(2, 30);
             d["delta_chord"] = L * rp.log_uniform(1e-5, 1e-2);
             d["epsilon_step"] = rp.log_uniform(1e-7, 1e-4);
+            d["epsilon_rel_max"] = rp.log_uniform(1e-6, 1e-2);
             d["max_nsteps"] = 10 + (int)rp.below(200);
             d["max_substeps"] = 1 + (int)rp.below(30);
         }
@@ -242,6 +313,7 @@ class WorldG8 : public World
                 fopt.delta_intersection = dj.at("delta_intersection");
                 fopt.delta_chord = dj.at("delta_chord");
                 fopt.epsilon_step = dj.at("epsilon_step");
+                fopt.epsilon_rel_max = dj.value("epsilon_rel_max", fopt.epsilon_rel_max);
                 fopt.max_nsteps = dj.at("max_nsteps").get<int>();
                 fopt.max_substeps = dj.at("max_substeps").get<int>();
             }
@@ -251,16 +323,47 @@ class WorldG8 : public World
             Real3 field{bnat[0], bnat[1], bnat[2]};
             std::string stepper = plan_in.value("stepper", "dormand_prince");
 
+            if (char const* pr = std::getenv("VSIM_PROBE"))
+            {
+                // diagnostic: "x,y,z,dx,dy,dz,max[,x2,y2,z2,dx2,dy2,dz2,max2]"
+                std::vector<double> v;
+                std::stringstream ss(pr);
+                std::string tok;
+                while (std::getline(ss, tok, ','))
+                    v.push_back(std::stod(tok));
+                OrangeTrackView g(params.host_ref(), gstate.ref(), TrackSlotId(0));
+                GeoTrackInitializer gi;
+                gi.pos = {v[0], v[1], v[2]};
+                gi.dir = {v[3], v[4], v[5]};
+                g = gi;
+                std::cerr.precision(17);
+                auto p1 = g.find_next_step(v[6]);
+                std::cerr << "probe: vol " << g.volume_id().get() << " find_next_step(" << v[6] << ") -> "
+                          << p1.distance << " boundary=" << p1.boundary << "\n";
+                auto p0 = g.find_next_step();
+                std::cerr << "probe: find_next_step() -> " << p0.distance << " boundary=" << p0.boundary << "\n";
+                if (v.size() >= 14)
+                {
+                    g.move_internal(Real3{v[7], v[8], v[9]});
+                    g.set_dir(Real3{v[10], v[11], v[12]});
+                    auto p2 = g.find_next_step(v[13]);
+                    std::cerr << "probe: after move_internal find_next_step(" << v[13] << ") -> "
+                              << p2.distance << " boundary=" << p2.boundary << "\n";
+                    auto p3 = g.find_next_step();
+                    std::cerr << "probe: find_next_step() -> " << p3.distance << " boundary=" << p3.boundary << "\n";
+                }
+            }
             struct Cl
             {
                 bool inited{false};
                 bool dead{false};
+                bool general_zhelix{false};  // ZHelixStepper outside its exact regime
             };
             std::vector<Cl> cl(nslots);
             Hasher hh;
             long ncalls = 0, nboundary = 0, nloop = 0, nfull = 0, nbump = 0;
             ld di = fopt.delta_intersection, dc = fopt.delta_chord, ms = fopt.minimum_step;
-            ld eps_step = fopt.epsilon_step;
+            ld eps_rel = fopt.epsilon_rel_max;
 
             for (auto const& op : plan_in.at("ops"))
             {
@@ -276,25 +379,73 @@ class WorldG8 : public World
                     Rng r(mix64((std::uint64_t)(u[0].get<double>() * 1e15)) ^ 8);
                     double pos[3], dir[3];
                     bool ok = false;
-                    for (int t = 0; t < 80 && !ok; ++t)
+                    bool general = false;
+                    ParticleTrackInitializer pi;
+                    if (stepper == "zhelix" && r.coin(0.75))
                     {
-                        for (int k = 0; k < 3; ++k)
-                            pos[k] = r.uniform(lo[k], hi[k]);
-                        ld x[3] = {pos[0], pos[1], pos[2]};
-                        RefPath p = ref.locate(x);
-                        ok = p.valid && !p.outside && ref.clearance(x, p) > 100 * (tol + di);
+                        // ZHelixStepper is exact for helices whose axis is the z
+                        // axis through the origin and that turn with "positive
+                        // helicity" (q*Bz < 0): build such a start
+                        for (int t = 0; t < 200 && !ok; ++t)
+                        {
+                            r.isotropic(dir);
+                            double sint = std::sqrt(dir[0] * dir[0] + dir[1] * dir[1]);
+                            if (sint < 1e-3)
+                                continue;
+                            int pid = bnat[2] > 0 ? (r.coin(0.5) ? 0 : 2) : (r.coin(0.5) ? 1 : 3);
+                            double rt = r.log_uniform(0.01, 0.7) * 0.5
+                                        * std::min(hi[0] - lo[0], hi[1] - lo[1]);
+                            // momentum for that gyroradius: scale from a 1 MeV probe
+                            pi.particle_id = ParticleId(pid);
+                            pi.energy = units::MevEnergy{1.0};
+                            par = pi;
+                            double m = par.mass().value();
+                            double p1 = par.momentum().value();
+                            ld r1 = native_value_from(par.momentum())
+                                    / (std::fabs(native_value_from(par.charge())) * std::fabs(bnat[2]))
+                                    * sint;
+                            double pneed = p1 * rt / (double)r1;
+                            double e = std::sqrt(pneed * pneed + m * m) - m;
+                            if (!(e > 1e-3 && e < 1e5))
+                                continue;
+                            pi.energy = units::MevEnergy{e};
+                            par = pi;
+                            ld kk = native_value_from(par.charge()) / native_value_from(par.momentum());
+                            double zero[3] = {0, 0, 0};
+                            Helix h0 = make_helix(zero, dir, bnat, kk);
+                            pos[0] = (double)(-h0.cross[0] / h0.k);
+                            pos[1] = (double)(-h0.cross[1] / h0.k);
+                            pos[2] = r.uniform(lo[2], hi[2]);
+                            ld x[3] = {pos[0], pos[1], pos[2]};
+                            RefPath p = ref.locate(x);
+                            ok = p.valid && !p.outside && ref.clearance(x, p) > 100 * (tol + di);
+                        }
+                        if (ok)
+                            rr.count("zhelix_axis_through_origin_starts");
                     }
-                    r.isotropic(dir);
+                    if (!ok)
+                    {
+                        general = stepper == "zhelix";
+                        for (int t = 0; t < 80 && !ok; ++t)
+                        {
+                            for (int k = 0; k < 3; ++k)
+                                pos[k] = r.uniform(lo[k], hi[k]);
+                            ld x[3] = {pos[0], pos[1], pos[2]};
+                            RefPath p = ref.locate(x);
+                            ok = p.valid && !p.outside && ref.clearance(x, p) > 100 * (tol + di);
+                        }
+                        r.isotropic(dir);
+                        pi.particle_id = ParticleId(r.below(4));
+                        // gyroradius from far below to far above the geometry scale
+                        pi.energy = units::MevEnergy{r.log_uniform(1e-3, 1e5)};
+                        par = pi;
+                    }
                     GeoTrackInitializer gi;
                     gi.pos = {pos[0], pos[1], pos[2]};
                     gi.dir = {dir[0], dir[1], dir[2]};
                     geo = gi;
-                    ParticleTrackInitializer pi;
-                    pi.particle_id = ParticleId(r.below(4));
-                    // gyroradius from far below to far above the geometry scale
-                    pi.energy = units::MevEnergy{r.log_uniform(1e-3, 1e5)};
-                    par = pi;
                     cl[s] = Cl{};
+                    cl[s].general_zhelix = general;
                     cl[s].inited = ok && !geo.failed() && !geo.is_outside();
                     rr.count("op:init");
                     continue;
@@ -326,26 +477,125 @@ class WorldG8 : public World
                 for (int k = 0; k < 3; ++k)
                     xs[k] = pos0[k] + (onb0 ? (ld)(4 * (di + tol)) * dir0[k] : 0);
                 RefPath start = ref.locate(xs);
+                {
+                    // the reference start volume must be the one the navigator is
+                    // in; otherwise (start within tolerance of a surface) the
+                    // volume relations of this call are not judged
+                    std::uint32_t navvol = geo.is_outside() ? 0xffffffffu : geo.volume_id().get();
+                    if (!start.valid || (start.outside ? 0xffffffffu : start.leaf) != navvol
+                        || ref.clearance(xs, start) < 2 * (di + tol))
+                    {
+                        start.valid = false;
+                        rr.count("skipped_start_near_surface");
+                    }
+                }
 
+                if (std::getenv("VSIM_TRACE"))
+                {
+                    OdeState st;
+                    st.pos = geo.pos();
+                    st.mom = detail::ax(par.momentum().value(), geo.dir());
+                    std::cerr << "  propagate slot " << s << " step " << step << " radius "
+                              << (double)radius << "\n";
+                    if (stepper == "dormand_prince")
+                        trace_driver<DormandPrinceStepper>(UniformField{field}, fopt, par.charge(), st, step, hx);
+                    else if (stepper == "runge_kutta")
+                        trace_driver<RungeKuttaStepper>(UniformField{field}, fopt, par.charge(), st, step, hx);
+                    else
+                        trace_driver<ZHelixStepper>(UniformZField{field[2]}, fopt, par.charge(), st, step, hx);
+                    RefPath last;
+                    for (int j = 0; j <= 400; ++j)
+                    {
+                        ld y[3];
+                        hx.pos((ld)step * j / 400, y);
+                        RefPath pj = ref.locate(y);
+                        if (j == 0 || pj != last)
+                            std::cerr << "    helix s=" << (double)((ld)step * j / 400) << " in " << pj.str()
+                                      << " at (" << (double)y[0] << "," << (double)y[1] << "," << (double)y[2] << ")\n";
+                        last = pj;
+                    }
+                }
                 Propagation res;
+                std::vector<GeoEvent> gev;
+                GeoProxy gproxy(geo, gev);
                 if (stepper == "dormand_prince")
                 {
                     auto prop = make_mag_field_propagator<DormandPrinceStepper>(
-                        UniformField{field}, fopt, par, geo);
+                        UniformField{field}, fopt, par, gproxy);
                     res = prop(step);
                 }
                 else if (stepper == "runge_kutta")
                 {
                     auto prop = make_mag_field_propagator<RungeKuttaStepper>(
-                        UniformField{field}, fopt, par, geo);
+                        UniformField{field}, fopt, par, gproxy);
                     res = prop(step);
                 }
                 else
                 {
                     auto prop = make_mag_field_propagator<ZHelixStepper>(
-                        UniformZField{field[2]}, fopt, par, geo);
+                        UniformZField{field[2]}, fopt, par, gproxy);
                     res = prop(step);
                 }
+                if (std::getenv("VSIM_TRACE"))
+                {
+                    std::cerr.precision(17);
+                    for (auto const& e : gev)
+                    {
+                        std::cerr << "    geo " << e.kind << " (" << e.a[0] << "," << e.a[1] << ","
+                                  << e.a[2] << ")";
+                        if (e.kind == 'f')
+                            std::cerr << " -> " << e.dist << (e.boundary ? " boundary" : "");
+                        if (e.kind == 'i' || e.kind == 'b')
+                        {
+                            ld y[3] = {e.a[0], e.a[1], e.a[2]};
+                            RefPath pj = ref.locate(y);
+                            std::cerr << " ref " << pj.str() << " clearance " << (double)ref.clearance(y, pj)
+                                      << " vs start volume " << (double)ref.clearance(y, start);
+                        }
+                        std::cerr << "\n";
+                    }
+                }
+                // largest phase advance of one accepted substep, from the axial
+                // progress between the positions the propagator moved to
+                double max_phase = 0;
+                {
+                    ld bn = std::sqrt((ld)bnat[0] * bnat[0] + (ld)bnat[1] * bnat[1]
+                                      + (ld)bnat[2] * bnat[2]);
+                    ld cosb = (dir0[0] * bnat[0] + dir0[1] * bnat[1] + dir0[2] * bnat[2]) / bn;
+                    if (std::fabs(cosb) > 1e-3)
+                    {
+                        ld prev = 0;
+                        for (auto const& e : gev)
+                        {
+                            if (e.kind != 'i' && e.kind != 'b')
+                                continue;
+                            ld ax = ((e.a[0] - pos0[0]) * bnat[0] + (e.a[1] - pos0[1]) * bnat[1]
+                                     + (e.a[2] - pos0[2]) * bnat[2])
+                                    / bn / cosb;
+                            max_phase = std::max(max_phase, (double)(std::fabs(ax - prev) * std::fabs(hx.k)));
+                            prev = ax;
+                        }
+                    }
+                }
+                // an accepted substep that ended exactly on a face of the start
+                // volume without the navigator noticing (known finding)
+                bool landed_on_face = false;
+                if (start.valid)
+                {
+                    for (auto const& e : gev)
+                    {
+                        if (e.kind != 'i')
+                            continue;
+                        ld y[3] = {e.a[0], e.a[1], e.a[2]};
+                        if (ref.clearance(y, start) < 1e-12L * scale)
+                            landed_on_face = true;
+                    }
+                    if (landed_on_face)
+                        rr.probe("substep_end_exactly_on_a_face");
+                }
+                bool multi_turn = max_phase > 3.2;
+                if (multi_turn)
+                    rr.probe("substep_spanning_more_than_half_a_turn");
                 ++ncalls;
                 rr.count("op:propagate");
                 double pos1[3] = {geo.pos()[0], geo.pos()[1], geo.pos()[2]};
@@ -407,6 +657,19 @@ class WorldG8 : public World
                                        + ctx.str());
                 }
                 // (5) end point on the analytic helix
+                bool off_helix = false;
+                bool large_phase = false, exhausts = false;
+                auto regime = [&](std::string const& base) {
+                    if (multi_turn && stepper == "zhelix")
+                        return base + ":substep-over-half-turn:zhelix";
+                    if (landed_on_face)
+                        return base + ":substep-end-exactly-on-a-face";
+                    if (large_phase)
+                        return base + ":delta_chord-admits-substeps-over-1-rad";
+                    if (exhausts)
+                        return base + ":chord-search-exhausts-max_nsteps";
+                    return base;
+                };
                 {
                     ld s0 = res.distance;
                     ld best = std::numeric_limits<ld>::infinity();
@@ -427,22 +690,86 @@ class WorldG8 : public World
                     }
                     // accuracy model: relative truncation error per unit path,
                     // intercept tolerance, remainder below the minimum substep
-                    ld tolp = 20 * eps_step * (ld)res.distance + 3 * (di + ms) + 8 * tol
-                              + 1e-9L * scale + window / 8;
+                    // accuracy model of the driver: every integration step of
+                    // length h is accepted with position error <= eps_rel*h and
+                    // relative momentum error <= eps_rel; direction errors
+                    // accumulate over the n steps (each at most a chord of
+                    // sagitta delta_chord long) and feed into the position
+                    ld hmax = std::sqrt(8 * radius * dc) + ms;
+                    ld nest = 1 + (ld)res.distance / hmax;
+                    // ... but never less than the chord tolerance the property
+                    // names (where the gyroradius is not large against
+                    // delta_chord a step spans a large phase and the embedded
+                    // error estimate says little)
+                    // ... and never less than the chord tolerance the property names
+                    ld tolp = std::max(eps_rel * (ld)res.distance * (2 + nest), dc)
+                              + 3 * (di + ms) + 8 * tol + 1e-9L * scale + window / 8;
+                    ld sinth = std::sqrt((ld)(hx.perp[0] * hx.perp[0] + hx.perp[1] * hx.perp[1]
+                                              + hx.perp[2] * hx.perp[2]));
+                    // regimes recorded as known findings, each under its own
+                    // fingerprint (see known_findings.json):
+                    //  - delta_chord admits substeps of more than 1 rad of phase
+                    //    (delta_chord > R_perp (1 - cos 0.5)); the embedded error
+                    //    estimate is then far below the true error
+                    //  - the chord search cannot come down from the requested
+                    //    step to a chord-limited one within max_nsteps halvings
+                    {
+                        ld rperp = radius * sinth;
+                        large_phase = dc > rperp * (1 - std::cos(0.5L));
+                        ld hchord = std::sqrt(8 * rperp * dc) + ms;
+                        exhausts = (ld)step > hchord * std::ldexp(1.0L, (int)fopt.max_nsteps - 2);
+                    }
                     rr.count("helix_checks");
                     double rel = (double)(best / tolp);
-                    rr.stats["max_helix_error_over_tolerance"]
-                        = std::max(rr.stats.value("max_helix_error_over_tolerance", 0.0), rel);
+                    bool zh = cl[s].general_zhelix;
+                    if (!zh && !large_phase && !exhausts)
+                        rr.stats["max_helix_error_over_tolerance"]
+                            = std::max(rr.stats.value("max_helix_error_over_tolerance", 0.0), rel);
+                    // final direction: the helix tangent at the travelled length
+                    if (!zh && !large_phase && !exhausts && !bump)
+                    {
+                        ld t[3];
+                        hx.dir(s0, t);
+                        ld dd = std::sqrt((t[0] - dir1[0]) * (t[0] - dir1[0])
+                                          + (t[1] - dir1[1]) * (t[1] - dir1[1])
+                                          + (t[2] - dir1[2]) * (t[2] - dir1[2]));
+                        ld told = (tolp + 2 * di + window) / radius + eps_rel * (2 + nest) + 1e-9L;
+                        rr.count("direction_checks");
+                        rr.stats["max_direction_error_over_tolerance"] = std::max(
+                            rr.stats.value("max_direction_error_over_tolerance", 0.0), (double)(dd / told));
+                        // not part of the property's statement: reported as a
+                        // probe only (a boundary hit closer than minimum_step
+                        // commits the momentum of the whole trial substep)
+                        if (dd > told)
+                            rr.probe("final_direction_off_helix_tangent");
+                    }
                     if (best > tolp)
                     {
                         std::ostringstream os;
                         os.precision(6);
                         os << "end point is " << (double)best
                            << " away from the analytic helix (allowed " << (double)tolp << ")";
-                        rr.violate("C08", "off-helix", "off-helix", os.str() + ctx.str());
+                        rr.violate("C08",
+                                   zh ? "off-helix-zhelix-stepper" : "off-helix",
+                                   zh ? "off-helix:ZHelixStepper::move"
+                                      : regime("off-helix"),
+                                   os.str() + ctx.str());
+                        off_helix = true;
                     }
                 }
-                // (6) consistency with the geometry
+                // (6) consistency with the geometry (not judged for the exact-helix
+                // stepper outside its exact regime: known finding, see (5))
+                if (cl[s].general_zhelix)
+                {
+                    rr.count("zhelix_general_start_calls");
+                    if (res.boundary)
+                    {
+                        geo.cross_boundary();
+                        if (geo.failed())
+                            cl[s].dead = true;
+                    }
+                }
+                else
                 {
                     ld x1[3] = {pos1[0], pos1[1], pos1[2]};
                     ld margin = 4 * (di + tol) + dc;
@@ -457,7 +784,7 @@ class WorldG8 : public World
                             if (p1 != start)
                                 rr.violate("C08",
                                            "left-volume-without-boundary",
-                                           "left-volume-without-boundary",
+                                           regime("left-volume-without-boundary"),
                                            "no boundary was flagged but the end point lies in "
                                                + p1.str() + " while the start was in "
                                                + start.str() + ctx.str());
@@ -480,7 +807,7 @@ class WorldG8 : public World
                         }
                         // the curved path up to the hit stays in the start volume,
                         // up to incursions within the chord tolerance
-                        if (start.valid)
+                        if (start.valid && !off_helix)
                         {
                             int nsamp = 24;
                             for (int j = 1; j < nsamp; ++j)
@@ -499,7 +826,7 @@ class WorldG8 : public World
                                        << (double)sj << " before the reported boundary";
                                     rr.violate("C08",
                                                "boundary-skipped-on-curved-path",
-                                               "boundary-skipped-on-curved-path",
+                                               regime("boundary-skipped-on-curved-path"),
                                                os.str() + ctx.str());
                                     break;
                                 }
@@ -519,8 +846,15 @@ class WorldG8 : public World
                             for (int k = 0; k < 3; ++k)
                                 y[k] = pos1[k] + ah * dir1[k];
                             RefPath pa = ref.locate(y);
-                            if (pa.valid && ref.clearance(y, pa) > 2 * (di + tol)
-                                && ref.surfaces_near(x1, pa, 16 * (di + tol)) <= 1)
+                            ld yb[3];
+                            for (int k = 0; k < 3; ++k)
+                                yb[k] = pos1[k] - ah * dir1[k];
+                            RefPath pb = ref.locate(yb);
+                            // well conditioned: one surface near the hit as seen
+                            // from both sides (no edge or corner)
+                            if (pa.valid && pb.valid && ref.clearance(y, pa) > 2 * (di + tol)
+                                && ref.surfaces_near(x1, pa, 32 * (di + tol)) <= 1
+                                && ref.surfaces_near(x1, pb, 32 * (di + tol)) <= 1)
                             {
                                 rr.count("crossing_checks");
                                 std::uint32_t got = geo.is_outside() ? 0xffffffffu
@@ -625,7 +959,7 @@ class WorldG8 : public World
               "GeV; after a boundary hit the client crosses. Oracles per call: energy unchanged and "
               "unit direction; 0 < distance <= step; returned flag == geo.is_on_boundary(); "
               "outcome is full step / looping / boundary (a short unflagged step must be a bump <= "
-              "0.1 delta_intersection); end point within 20 eps_step*s + 3(delta_int+min_step) of "
+              "0.1 delta_intersection); end point within max(eps_rel_max*s*(2+n_steps), 2 delta_chord) + 3(delta_int+min_step) of "
               "the analytic helix; unflagged end points lie in the start volume; flagged ones lie "
               "on a reference surface, the helix before the hit stays in the start volume up to "
               "the chord tolerance, and the post-crossing volume is the one the path enters. "
@@ -640,8 +974,10 @@ class WorldG8 : public World
             {"stub", {"analytic helix", "RefGeo", "geometry generator"}},
             {"not_run", {"RZMapField (no field map data generated)", "AlongStepUniformMsc path (world T)"}}};
         d["assumptions"]
-            = {"accuracy model of the driver: relative truncation error <= 20*epsilon_step per unit "
-               "path, intercept tolerance delta_intersection, remainder below minimum_step; "
+            = {"accuracy model of the driver: per integration step position error <= epsilon_rel_max*h "
+               "and relative momentum error <= epsilon_rel_max, accumulated over s/sqrt(8 R "
+               "delta_chord) steps, never demanded below 2 delta_chord; intercept tolerance "
+               "delta_intersection, remainder below minimum_step; "
                "calibrated on the unchanged tree (max observed error/tolerance is reported)",
                "boundary features thinner than delta_chord may legitimately be missed"};
         return d;
